@@ -1124,3 +1124,27 @@ Definition tr_Parse_build (proto : (list N)) (host : (list N)) (bind : (list N))
       go_endpoint_Endpoint_SetId := (@nil N);
       go_endpoint_Endpoint_Key := (@nil N) |} in
     Next e)).
+
+(* tars/selector/consistenthash/consistenthash_new.go: func ConsistentHash.weight *)
+Definition tr_ch_weight (w : Z) (c_enableWeight : bool) (c_replicates : Z) : ctl unit Z :=
+  let weight := c_replicates in
+    bindc (if c_enableWeight
+      then let weight := w in
+        Next weight
+      else Next weight)
+    (fun weight : Z =>
+    bindc (if (0 <? weight)
+      then if (negb (4 =? 0)) then (let weight := (wrapS 64 (Z.quot weight 4)) in
+        bindc (if (weight =? 0)
+          then let weight := 1 in
+            Next weight
+          else Next weight)
+        (fun weight : Z =>
+        Next weight)) else Panic
+      else Next weight)
+    (fun weight : Z =>
+    Return weight)).
+
+(* tars/endpointmanager.go: func endpointManager.enableWeight *)
+Definition tr_mgr_enableWeight (e_weightType : Z) : ctl unit bool :=
+  Return (e_weightType =? k_endpoint_EStaticWeight).
